@@ -120,7 +120,7 @@ def gen_hash(rng, tier, mult):
             key = data(r, klen)
             msg = data(r, pick_len(r))
             if r.chance(1, 2):
-                ops.append("hmac %s %s %s" % (a, hx(key), hx(msg)))
+                ops.append("%s %s %s %s" % ("hmacip" if r.chance(1, 4) else "hmac", a, hx(key), hx(msg)))
             ops.append("hmacinit %s %s" % (a, hx(key)))
             for p in partition(r, msg):
                 ops.append("hmacupd %s %s" % (a, hx(p)))
@@ -212,7 +212,7 @@ def classify(case, out):
         if t[0] in ("upd", "buf", "hmacupd"):
             n = oplen(op)
             tags.append("%s:len%s" % (t[0], "=0" if n == 0 else "<64" if n < 64 else "=64" if n == 64 else "<128" if n < 128 else ">=128"))
-        elif t[0] in ("hmac", "hmacinit"):
+        elif t[0] in ("hmac", "hmacip", "hmacinit"):
             k = 0 if t[2] == "-" else len(t[2]) // 2
             tags.append("hmackey:%s" % ("<64" if k < 64 else "=64" if k == 64 else ">64"))
         elif t[0] == "pbkdf2":
@@ -256,7 +256,7 @@ def nontrivial_hash(case):
         t = op.split()
         if t[0] in ("upd", "hmacupd") and oplen(op) > 0:
             n += 1
-        elif t[0] in ("hmac", "pbkdf2"):
+        elif t[0] in ("hmac", "hmacip", "pbkdf2"):
             n += 2
         elif t[0] == "buf" and oplen(op) >= 56:
             n += 2
